@@ -542,6 +542,11 @@ class TextXVisitor(RRELVisitor):
                 else:
                     # Recursively append all referenced classes.
                     def _add_reffered_classes(rule, inh_by, start=False):
+                        """
+                        Adds the classes of the objects the given expression
+                        may yield. Returns True if the expression yields an
+                        object whenever it matches.
+                        """
                         if rule.root and not start:
                             _determine_rule_type(rule._tx_class)
                             if rule._tx_class._tx_type != RULE_MATCH:
@@ -549,29 +554,32 @@ class TextXVisitor(RRELVisitor):
                                     inh_by.append(rule._tx_class)
                                 # stop after first added/found type
                                 return True
-                        else:
-                            if isinstance(rule, (And, Not)) or rule.suppress:
-                                # Predicates and suppressed matches never
-                                # yield an object.
-                                return False
-                            is_ordered_choice = isinstance(rule, OrderedChoice)
-                            inh_added = False
+                            return False
+                        if isinstance(rule, (And, Not)) or rule.suppress:
+                            # Predicates and suppressed matches never
+                            # yield an object.
+                            return False
+                        if isinstance(rule, OrderedChoice):
+                            always = bool(rule.nodes)
                             for r in rule.nodes:
-                                added = _add_reffered_classes(r, inh_by)
-                                inh_added |= added
-                                if (
-                                    added
-                                    and not is_ordered_choice
-                                    and not isinstance(r, (Optional, ZeroOrMore))
-                                ):
-                                    # If not ordered choice we should get out
-                                    # early as the rest of the rule shouldn't
-                                    # influence the inheritance hierarchy. An
-                                    # optional part may match nothing: then
-                                    # what follows yields the object.
+                                always &= _add_reffered_classes(r, inh_by)
+                            return always
+                        always = False
+                        for r in rule.nodes:
+                            if _add_reffered_classes(r, inh_by):
+                                always = True
+                                if not isinstance(rule, UnorderedGroup):
+                                    # The rest of the sequence doesn't
+                                    # influence the inheritance hierarchy:
+                                    # this part yields the object. A part
+                                    # that may match nothing, or without an
+                                    # object, is followed by what yields it
+                                    # then. The members of an unordered group
+                                    # match in any order.
                                     break
-                            return inh_added
-                        return False
+                        if isinstance(rule, (Optional, ZeroOrMore)):
+                            return False
+                        return always
 
                     _add_reffered_classes(rule, cls._tx_inh_by, start=True)
                 if len(cls._tx_inh_by) != inh_count:
